@@ -11,6 +11,7 @@ package main
 import (
 	"fmt"
 	"os"
+	"path/filepath"
 	"regexp"
 	"sort"
 	"strings"
@@ -29,6 +30,9 @@ func main() {
 }
 
 type world struct {
+	// remote ids of messages the connector accepted while its journal was off (it cannot deliver them after a restart)
+	noRedeliver map[string]bool
+	underFault  bool
 	ctx  *common.Ctx
 	dir  string
 	p    *proc
@@ -56,6 +60,11 @@ type scenario struct {
 }
 
 func (w *world) push(u *upd) (string, error) {
+	if u.Kind == "MessageUpdated" && w.underFault {
+		// the journalled connector now holds the NEW literal whatever became of the update (a real connector would
+		// deliver the update again); the cache file of this message is not among those the checkpoints remove
+		w.noRedeliver[u.MsgRID] = true
+	}
 	r, err := w.p.call(req{Op: "push", Update: u})
 	if err != nil {
 		return "", err
@@ -206,6 +215,10 @@ func scenarios(tier string) []scenario {
 			prepare: func(w *world, pfx string) (*sdata, error) { return prepAB(w, pfx, 2, true) },
 			run:     func(w *world, pfx string, d *sdata) error { return cmds(d.c, "DELETE "+imapc.Quote(mk(pfx, "A"))) },
 			model:   modelDelete},
+		{name: "unsubscribe",
+			prepare: func(w *world, pfx string) (*sdata, error) { return prepAB(w, pfx, 1, false) },
+			run:     func(w *world, pfx string, d *sdata) error { return cmds(d.c, "UNSUBSCRIBE "+imapc.Quote(mk(pfx, "A"))) },
+		},
 		{name: "rename",
 			prepare: func(w *world, pfx string) (*sdata, error) {
 				c, err := w.p.login()
@@ -328,6 +341,8 @@ func boundaryKinds(ev []event) []string {
 	for _, e := range ev {
 		switch e.K {
 		case "end-r", "rollback":
+		case "init":
+			out = append(out, "init")
 		case "stmt", "stmt-err":
 			out = append(out, "stmt")
 		case "del-err":
@@ -443,6 +458,84 @@ func (w *world) leftovers() (string, error) {
 	return strings.Join(bad, "; "), nil
 }
 
+// checkpoint: the restart comparison is TOTAL. After every scenario the complete client-visible state (LSUB, every
+// mailbox with UIDVALIDITY / UIDNEXT, every message with UID, flags, RFC822.SIZE and exact bytes) is taken, then
+//   close; the cache files of a few listed messages the connector can deliver again are removed; reopen
+//   -> same state (first FETCH after the loss); same state again (FETCH served from the refilled cache);
+//   kill; restart -> same state; no cache file without a row, no row marked for deletion.
+func (w *world) checkpoint(what string) error {
+	res := w.ctx.Res
+	canon := "close + reopen / cache loss / kill + restart after: " + what
+	w.ctx.Current(canon, nil)
+	w.quiesceN(12, 5*time.Millisecond)
+	f1, bad, err := fullState(w.p)
+	if err != nil {
+		return err
+	}
+	if len(bad) > 0 {
+		res.Fail("listed-message-not-fetchable | before the restart, after: "+what, strings.Join(bad, "; "), nil)
+	}
+	// cache files to lose: listed messages with a connector remote id (not recovered, not waiting for the purge)
+	snap, err := w.snap()
+	if err != nil {
+		return err
+	}
+	listed := map[string]bool{}
+	for _, r := range snap.Rows {
+		listed[r.Msg] = true
+	}
+	var lose []string
+	for _, m := range snap.Ms {
+		if listed[m.IID] && !m.Deleted && !strings.HasPrefix(m.RID, "DELETED-") && !strings.HasPrefix(m.RID, "GLUON-RECOVERED-MESSAGE") && !w.noRedeliver[m.RID] {
+			lose = append(lose, m.IID)
+		}
+	}
+	sort.Strings(lose) // internal ids are random: an arbitrary but small selection
+	if len(lose) > 6 {
+		lose = lose[:6]
+	}
+	w.cleanQuit(what)
+	for _, id := range lose {
+		os.Remove(filepath.Join(storeDirOf(w.dir), id))
+	}
+	if err := w.restart(""); err != nil {
+		res.Fail("restart-failed | "+canon, err.Error(), nil)
+		return err
+	}
+	cmp := func(when string, restarted bool) error {
+		f, bad, err := fullState(w.p)
+		if err != nil {
+			return err
+		}
+		res.Evaluations++
+		if f != f1 {
+			res.Fail("state-changed-across-restart | "+canon+" | "+when, firstDiff(f1, f), nil)
+		}
+		if len(bad) > 0 {
+			res.Fail("listed-message-not-fetchable | "+canon+" | "+when, strings.Join(bad, "; "), nil)
+		}
+		if restarted {
+			if lo, e := w.leftovers(); e == nil && lo != "" {
+				res.Fail("leftovers-after-restart | "+canon+" | "+when, lo, nil)
+			}
+		}
+		return nil
+	}
+	res.Nontrivial(canon)
+	if err := cmp(fmt.Sprintf("after close + reopen with %d cache files lost (first FETCH)", len(lose)), true); err != nil {
+		return err
+	}
+	if err := cmp("second FETCH after the cache loss", false); err != nil {
+		return err
+	}
+	w.p.kill()
+	if err := w.restart(""); err != nil {
+		res.Fail("restart-failed | "+canon, err.Error(), nil)
+		return err
+	}
+	return cmp("after kill + restart", true)
+}
+
 func runC07(ctx *common.Ctx) error {
 	res := ctx.Res
 	res.Rule = "every step boundary (store call, transaction begin, statement, commit) of one instance of each operation kind (APPEND, COPY, MOVE, EXPUNGE, STORE, CREATE with parents, DELETE, RENAME with inferiors, connector MessagesCreated batch / MessageUpdated with a new literal / MessageDeleted, end of session purge, start-up clean-up) x {process killed, step returns an error}; non-trivial = distinct (operation, boundary, fault) whose fault actually fired"
@@ -452,7 +545,7 @@ func runC07(ctx *common.Ctx) error {
 	}
 	defer os.RemoveAll(dir)
 	defer os.Remove(dir + ".stderr")
-	w := &world{ctx: ctx, dir: dir, em: &emitter{}}
+	w := &world{ctx: ctx, dir: dir, em: &emitter{}, noRedeliver: map[string]bool{}}
 	if err := w.restart(""); err != nil {
 		return err
 	}
@@ -464,6 +557,9 @@ func runC07(ctx *common.Ctx) error {
 	for si, sc := range scenarios(ctx.Tier) {
 		if err := w.runScenario(si, sc); err != nil {
 			return fmt.Errorf("scenario %s: %w", sc.name, err)
+		}
+		if err := w.checkpoint(sc.name); err != nil {
+			return fmt.Errorf("checkpoint after %s: %w", sc.name, err)
 		}
 	}
 	// the start-up clean-up is examined on a directory of its own (few objects => few boundaries)
@@ -481,11 +577,20 @@ func runC07(ctx *common.Ctx) error {
 	if err := w.startupScenario(); err != nil {
 		return fmt.Errorf("scenario startup: %w", err)
 	}
+	if err := w.checkpoint("startup"); err != nil {
+		return err
+	}
 	if err := w.resurrectScenario(); err != nil {
 		return fmt.Errorf("scenario resurrect: %w", err)
 	}
+	if err := w.checkpoint("delete + re-create"); err != nil {
+		return err
+	}
 	if err := w.recoveryMoveScenario(); err != nil {
 		return fmt.Errorf("scenario recovery move: %w", err)
+	}
+	if err := w.checkpoint("COPY / MOVE out of the recovery mailbox"); err != nil {
+		return err
 	}
 	if err := w.redownloadScenario(); err != nil {
 		return fmt.Errorf("scenario redownload: %w", err)
@@ -584,7 +689,9 @@ func (w *world) runScenario(si int, sc scenario) error {
 			if _, err := w.p.call(req{Op: "arm", K: k, Mode: mode}); err != nil {
 				return err
 			}
+			w.underFault = true
 			runErr := sc.run(w, pfx, d)
+			w.underFault = false
 			fired := false
 			diedOnError := false
 			if mode == "kill" {
